@@ -153,8 +153,9 @@ def obligations(cx):
                 if at_paths: cx.cover(tag + ".at", at_paths[0].pc + [eq(xT(idx, comp), Tq)])
                 if off_paths: cx.cover(tag + ".off", off_paths[0].pc + [ne(xT(idx, comp), Tq)])
                 if stated and units == KG and not init:
-                    p = [q for q in rets if z3sat(q.pc + [ne(xT(idx, comp), Tq)])][0]
-                    cx.must_fail(tag + ".arrhenius", p.pc + [ne(xT(idx, comp), Tq), xP(idx, comp) > 0, xEa(idx, comp) > 1], eq(p.value.f['value'], Pkg * exp(xEa(idx, comp) / R * (1 / Tq - 1 / xT(idx, comp)))))
+                    cands = [q for q in rets if z3sat(q.pc + [ne(xT(idx, comp), Tq), xP(idx, comp) > 0, xEa(idx, comp) > 1])]
+                    p = cands[0] if cands else [q for q in rets if z3sat(q.pc + [ne(xT(idx, comp), Tq)])][0]
+                    if cands: cx.must_fail(tag + ".arrhenius", p.pc + [ne(xT(idx, comp), Tq), xP(idx, comp) > 0, xEa(idx, comp) > 1], eq(p.value.f['value'], Pkg * exp(xEa(idx, comp) / R * (1 / Tq - 1 / xT(idx, comp)))))
                     # lemma: on an Arrhenius line the result does not depend on which experiment is nearest
                     Ea, c0 = var('Ea'), var('c0')
                     line = {('#', xP(idx, comp).id): exp(c0 - Ea / (R * xT(idx, comp))), ('#', xEa(idx, comp).id): Ea}
@@ -195,6 +196,25 @@ def obligations(cx):
     cx.assume_note("assumed contract of numpy.linalg.lstsq on the design [x, 1]: least-squares line; exact line for collinear data with >= 2 distinct abscissae")
     cx.assume_note("activation energies of one component's experiments are either all stated or all unstated (mixed lists not modelled)")
     cx.assume_note("get_penetrant_data verified on all concrete experiment lists up to the stated bound (bounded part), then used by contract for lists of arbitrary length n >= 1")
+
+
+def units_obligations(cx, prefix="callee.get_permeance"):
+    """the postcondition of Membrane.get_permeance that its callers rely on (result in kg/(m2 h kPa), value >= 0), re-proved from the body"""
+    src = cx.src
+    gp = 'Membrane.get_permeance'
+    cx.under_contract(gp)
+    comp = W.component(src, '1'); n = var('n', 'I'); idx = var('idx', 'I')
+    mem = W.membrane(src, experiments=Opaque('experiments'))
+    for stated in (True, False):
+        for units in ('kg/(m2*h*kPa)', 'SI', 'GPU'):
+            ctr = {'Membrane.get_penetrant_data': CM.penetrant_data_contract(n, stated, units), 'min(key=)': CM.min_key_contract,
+                   'Membrane.calculate_activation_energy': CM.activation_energy_contract, 'numpy.searchsorted': CM.searchsorted_contract}
+            ps = cx.explore(call(src, gp, [], dict(temperature=Tq, component=comp), self_obj=mem), contracts=ctr, pre=[n >= 1, Tq > 0, var('M1') > 0, xT(idx, comp) > 0, xP(idx, comp) >= 0])
+            for pi, p in enumerate(returns(ps)):
+                v = p.value
+                ok = isinstance(v, Obj) and v.cls == 'Permeance' and v.f['units'] == KG
+                cx.ob("%s.%s.%s.path%d.kg-units" % (prefix, 'stated' if stated else 'unstated', units.replace('/', '_'), pi), p.pc, band(blit(ok), v.f['value'] >= 0) if ok else FALSE, function=gp,
+                      statement="get_permeance returns a Permeance in kg/(m2 h kPa) with a non-negative value (relied upon by the process models)")
 
 
 def z3sat(fs):
